@@ -15,11 +15,11 @@ import (
 )
 
 type vfAddrCase struct {
-	Host      string `json:"host"`       // host without brackets
-	Bracketed bool   `json:"bracketed"`  // written as [host]
-	Port      int    `json:"port"`       // 0 = absent
-	Kind      string `json:"kind"`       // dns, ipv4, ipv6
-	Scheme    string `json:"scheme"`     // "", "ws", "wss"
+	Host      string `json:"host"`      // host without brackets
+	Bracketed bool   `json:"bracketed"` // written as [host]
+	Port      int    `json:"port"`      // 0 = absent
+	Kind      string `json:"kind"`      // dns, ipv4, ipv6
+	Scheme    string `json:"scheme"`    // "", "ws", "wss"
 }
 
 func (c vfAddrCase) addr() string {
